@@ -27,10 +27,11 @@ RULE += (' Also: awaitable and look-alike values as default / fill value / initi
 RULE += (" Also: after the call the caller's synchronous one-shot iterator still yields everything the aggregation did not take.")
 RULE += (' Also: defaults equal to everything / refusing comparison.')
 RULE += (' Also: key functions giving equal / identical keys that cannot be ordered.')
+RULE += (' Also: a class-based source that reports its remaining length.')
 ASSUMPTIONS = ["builtins/functools/heapq of the running interpreter (3.12) are the reference, incl. compensated float sum"]
 EXHAUSTIVE = {"quick": False, "thorough": False}
 N_RANDOM = {"quick": 150000, "thorough": 8000000}
-FLAVS = ["list", "sync_iter", "async_class", "async_gen", "tuple", "sync_gen", "getitem_seq", "async_iterable", "sync_iterable", "tuple_sub", "list_sub"]
+FLAVS = ["list", "sync_iter", "async_class", "async_gen", "tuple", "sync_gen", "getitem_seq", "async_iterable", "sync_iterable", "tuple_sub", "list_sub", "async_class_sized"]
 FNFL = ["def", "async_def", "callobj"]
 
 
